@@ -209,3 +209,42 @@ Example C16_sort_limit_filter_nonvacuous :
   map gid (filter_keyvals l 1 [7] false) = [Some 0; Some 3] /\
   map gid (filter_keyvals l 1 [7] true) = [Some 1; Some 2].
 Proof. vm_compute. repeat split; reflexivity. Qed.
+
+(* ------------------------------------------------------------------ round 2: the make-it-hashable step *)
+
+(* Model/GroupHash.v makes the step explicit that turns a value into something a dict key can
+   hold (`tuple(val)` for a list in the code): h acts on the value inside the composite key only.
+   The grouping of the statement survives exactly the injective steps: an injective h gives the
+   result of Model/Group.v for all inputs (so every merge theorem above applies), and an h that
+   sends two different values to the same thing returns ONE event for the two-event list holding
+   them, carrying the sum of both - one output per distinct combination fails. *)
+From AwVerif Require Import Model.GroupHash Proofs.GroupHash.
+
+Theorem C16_merge_hashable_step_injective : forall h, h_injective h -> forall events keys,
+  merge_events_by_keys_h h events keys = merge_events_by_keys events keys.
+Proof. exact merge_h_injective. Qed.
+Print Assumptions C16_merge_hashable_step_injective.
+
+Theorem C16_merge_hashable_step_conflates : forall h a b, a <> b -> h a = h b ->
+  let events := [mkG None 0 1 [(0, a)]; mkG None 0 2 [(0, b)]] in
+  merge_events_by_keys events [0] = [mkG None 0 1 [(0, a)]; mkG None 0 2 [(0, b)]] /\
+  merge_events_by_keys_h h events [0] = [mkG None 0 3 [(0, a)]].
+Proof. exact merge_h_conflates. Qed.
+Print Assumptions C16_merge_hashable_step_conflates.
+
+Theorem C16_merge_hashable_step_iff : forall h,
+  (forall events keys, merge_events_by_keys_h h events keys = merge_events_by_keys events keys)
+  <-> h_injective h.
+Proof. exact merge_h_correct_iff_injective. Qed.
+Print Assumptions C16_merge_hashable_step_iff.
+
+(* label 7 = the list ["x"], label 8 = the string that spells it; a step that sends both to the
+   same text: three events, two values, one output *)
+Example C16_merge_hashable_step_nonvacuous :
+  merge_events_by_keys_h (fun v => if v =? 8 then 7 else v)
+    [mkG (Some 1) 0 10 [(1, 7)]; mkG None 1000 20 [(1, 8)]; mkG None 2000 40 [(1, 7)]] [1]
+  = [mkG None 0 70 [(1, 7)]] /\
+  merge_events_by_keys
+    [mkG (Some 1) 0 10 [(1, 7)]; mkG None 1000 20 [(1, 8)]; mkG None 2000 40 [(1, 7)]] [1]
+  = [mkG None 0 50 [(1, 7)]; mkG None 1000 20 [(1, 8)]].
+Proof. vm_compute. split; reflexivity. Qed.
